@@ -120,12 +120,17 @@ class FlattenNestedLoopsPattern(RewritePattern):
                 # Do not currently handle lb != 0
                 return
 
-            factor = (inner_ub - inner_lb) // inner_step
+            if inner_step <= 0 or outer_step <= 0:
+                return
+            # Trip count of the inner loop: the ceiling, and never negative.
+            factor = max(0, -((inner_lb - inner_ub) // inner_step))
             factor_op = arith.ConstantOp(
-                builtin.IntegerAttr(factor, builtin.IndexType())
+                builtin.IntegerAttr(factor * outer_step, builtin.IndexType())
             )
-            new_ub_op = arith.MuliOp(op.ub, factor_op.result)
-            rewriter.insert((factor_op, new_ub_op))
+            # The outer loop runs ceildiv(ub, step) times: scale that count, not ub.
+            outer_trips_op = arith.CeilDivSIOp(op.ub, op.step)
+            new_ub_op = arith.MuliOp(outer_trips_op.result, factor_op.result)
+            rewriter.insert((factor_op, outer_trips_op, new_ub_op))
             new_ub = new_ub_op.result
             new_step = op.step
 
